@@ -255,6 +255,8 @@ def window_unaltered(ctx: Ctx, py: PyProgram, rule: str = "C01.4/window", hooks:
 
 def consumers(ctx: Ctx, py: PyProgram) -> None:
     window_unaltered(ctx, py)
+    from .c05 import fetch_decoder_fresh
+    fetch_decoder_fresh(ctx, py, "C01.2/fetch-window-fresh")
     hooks = ["SC62015.get_instruction_info", "SC62015.get_instruction_text", "SC62015.get_instruction_low_level_il"]
     sets = {}
     n = 0
